@@ -10,7 +10,9 @@ META = {
                  "Engine::process (also at 10^+-6 magnitudes); seeded random engine traces validated by TLC",
 }
 ASSUMPTIONS = [
-    "fills carry price > 0, quantity > 0, fee >= 0 in the quote asset (the quantifier of C02); zero quantities are excluded",
+    "fills carry price > 0 and quantity > 0 (the quantifier of C02; zero quantities are excluded). Fees are in the quote "
+    "asset; the model-checking configurations use fee >= 0 as the quantifier says, the generated and random fill "
+    "histories also contain negative fees (maker rebates): every C02 formula is linear in the fee",
     "decimal rounding: results are compared with the exact fraction within 1e-18 x max(1,|value|) (vh::cmp), "
     "recorded traces within one milli-unit (DESIGN 5.5)",
     "pnl_unrealised is not judged here (C15's verdict); every other field of Position and PositionExited is",
